@@ -56,7 +56,7 @@ type c19Result struct {
 
 const (
 	c19Init   = 100
-	c19Max    = 1600
+	c19Max    = 1000
 	c19AppMs  = 400
 	c19Tries  = 8
 	c19Idle   = 5
